@@ -79,6 +79,9 @@ var c08DefectCatalogue = []Defect{
 	{Name: "wrong-root", Param: "LogoutRequest"}, {Name: "wrong-root", Param: "Response"}, {Name: "wrong-root-ns"},
 	{Name: "issuer-absent"}, {Name: "issuer-empty"}, {Name: "issuer-unregistered"}, {Name: "issuer-case"}, {Name: "issuer-blank"}, {Name: "issuer-slash"},
 	{Name: "id-absent"}, {Name: "id-empty"}, {Name: "version-absent"}, {Name: "version-empty"},
+	{Name: "dest-endpoint", Param: "slo"}, {Name: "dest-endpoint", Param: "attribute"}, {Name: "dest-endpoint", Param: "metadata"}, {Name: "dest-endpoint", Param: "callback"}, {Name: "dest-endpoint", Param: "certificate"},
+	{Name: "base64-trailing-garbage", Param: "%21%21%21%21"}, {Name: "base64-trailing-garbage", Param: "%00"}, {Name: "base64-trailing-garbage", Param: "%3Cscript%3E"}, {Name: "base64-trailing-garbage", Param: "*"},
+	{Name: "base64-middle-garbage", Param: "%21"}, {Name: "base64-url-alphabet"},
 	{Name: "dest-other-host"}, {Name: "dest-other-path"}, {Name: "dest-trailing-slash"}, {Name: "dest-path-case"}, {Name: "dest-scheme"}, {Name: "dest-prefix"},
 	{Name: "nb-future", Param: "10"}, {Name: "nb-future", Param: "3600"}, {Name: "nb-future", Param: "315360000"},
 	{Name: "noa-past", Param: "10"}, {Name: "noa-past", Param: "3600"}, {Name: "noa-past", Param: "315360000"},
@@ -157,6 +160,12 @@ func applyModelDefect(c *SSOCase, d Defect, host string) {
 		} else {
 			r.Destination = "https://" + strings.TrimPrefix(adv, "http://")
 		}
+	case "dest-endpoint":
+		// another endpoint of this very IdP: advertised, but not as single-sign-on location
+		r.Destination = c.Spec.IdP.Advertised(d.Param, host)
+		if r.Destination == adv {
+			r.Destination = adv + "/x"
+		}
 	case "dest-prefix":
 		r.Destination = adv[:len(adv)-1]
 	case "dest-of-other-tenant":
@@ -195,7 +204,7 @@ func swapCase(s string) string {
 }
 
 func genC08Case(t *rapid.T) SSOCase {
-	spec := genSSOWorld(t, worldOpts{bindings: []string{world.BindPost, world.BindRedirect, world.BindPost, world.BindRedirect, world.BindArtifact, world.BindPAOS, world.BindOther}, minACS: 0, maxACS: 4, signingFlags: true, issuerModes: []string{"static", "host"}, customSSO: true})
+	spec := genSSOWorld(t, worldOpts{bindings: []string{world.BindPost, world.BindRedirect, world.BindPost, world.BindRedirect, world.BindArtifact, world.BindPAOS, world.BindOther, " " + world.BindPost, world.BindRedirect + "\n", "\t" + world.BindPost + " "}, minACS: 0, maxACS: 4, signingFlags: true, issuerModes: []string{"static", "host"}, customSSO: true})
 	c := SSOCase{Spec: spec, Host: rapid.SampledFrom(reqHosts).Draw(t, "host")}
 	c.SP = rapid.IntRange(0, len(spec.SPs)-1).Draw(t, "sp")
 	c.Req = genValidAuthn(t, spec, c.SP, c.Host)
@@ -210,7 +219,7 @@ func genC08Case(t *rapid.T) SSOCase {
 	}
 	if rapid.IntRange(0, 2).Draw(t, "withdefect") == 0 {
 		d := pick(t, "defect", c08DefectCatalogue)
-		if d.Name == "bad-deflate" || d.Name == "sigalg-without-signature" {
+		if d.Name == "bad-deflate" {
 			// defined for the redirect transport
 			if binding != "redirect" {
 				binding = "redirect"
@@ -222,6 +231,9 @@ func genC08Case(t *rapid.T) SSOCase {
 		}
 		c.Defects = []Defect{d}
 		applyModelDefect(&c, d, c.Host)
+	}
+	if rapid.IntRange(0, 7).Draw(t, "bigrelay") == 0 {
+		c.Tr.RelayState = bigString(rapid.SampledFrom([]int{1500, 2100, 9000}).Draw(t, "relaylen"), "rs-")
 	}
 	c.PersistFault = rapid.IntRange(0, 5).Draw(t, "persistfault") == 0
 	c.Noise = rapid.IntRange(0, 2).Draw(t, "noise") == 0
@@ -242,6 +254,9 @@ func c08Oracle(c SSOCase, r *ssoRun) []*ev.Violation {
 		vs = append(vs, ev.V("C08/persist-attempted-more-than-once", "CreateAuthRequest called %d times for one request", len(okCalls)+len(failedCalls)))
 	}
 	body := string(r.Rep.Body)
+	if loc := r.Rep.Header.Get("Location"); loc != "" && (r.Rep.Status < 300 || r.Rep.Status >= 400) {
+		vs = append(vs, ev.V("C08/several-messages", "status %d reply with a body of %d bytes also carries a Location header (%s): two deliveries in one reply", r.Rep.Status, len(body), short(loc, 80)))
+	}
 	carriesSAML := strings.Contains(body, "SAMLResponse") || strings.Contains(body, "Response") && strings.Contains(body, "urn:oasis:names:tc:SAML:2.0:protocol")
 	switch {
 	case n > 1:
